@@ -233,28 +233,7 @@ func init() {
 		for i := 0; i < t.NumMethod(); i++ {
 			c.emit("skel", tup("\""+t.Method(i).Name+"\"", "true"))
 		}
-		_, _, idA, idB := mixConfigs()
-		allowed := "[" + zs(int64(idA)) + ";" + zs(int64(idB)) + "]"
-		for _, procs := range []int{2, 4, 16} {
-			old := runtime.GOMAXPROCS(procs)
-			for _, buffered := range []bool{false, true} {
-				seen, errs := concurrentScenario(c.pick(300, 3000), 1+c.rng.Intn(4), buffered, false)
-				for id, n := range seen {
-					c.emit("mix", tup(zs(id), allowed))
-					c.dist["encodes-observed"] += n
-				}
-				c.dist["command-errors"] += errs
-				if hungScenarios > 0 {
-					break
-				}
-			}
-			runtime.GOMAXPROCS(old)
-		}
-		if hungScenarios > 0 {
-			// not an identifier any configuration has: the oracle rejects it
-			c.emit("mix", tup("(-2)", allowed))
-			c.dist["hung-scenarios"] += hungScenarios
-		}
+		c.mixCases(c.pick(300, 3000), []int{2, 4, 16})
 	}
 	// run under the race detector by the driver (bin/harness_race): every method hammered while commands flow
 	props["C17race"] = func(c *ctx) {
@@ -277,5 +256,32 @@ func init() {
 			c.dist["hung-scenarios"] += hungScenarios
 		}
 		c.emit("race", "0")
+	}
+}
+
+// mixCases: a client alternates two configurations through the receive loop while other goroutines encode a type both
+// contain; every packet header they get must be that type's identifier in one of the two configurations
+func (c *ctx) mixCases(rounds int, procsList []int) {
+	_, _, idA, idB := mixConfigs()
+	allowed := "[" + zs(int64(idA)) + ";" + zs(int64(idB)) + "]"
+	for _, procs := range procsList {
+		old := runtime.GOMAXPROCS(procs)
+		for _, buffered := range []bool{false, true} {
+			seen, errs := concurrentScenario(rounds, 1+c.rng.Intn(4), buffered, false)
+			for id, n := range seen {
+				c.emit("mix", tup(zs(id), allowed))
+				c.dist["encodes-observed"] += n
+			}
+			c.dist["command-errors"] += errs
+			if hungScenarios > 0 {
+				break
+			}
+		}
+		runtime.GOMAXPROCS(old)
+	}
+	if hungScenarios > 0 {
+		// not an identifier any configuration has: the oracle rejects it
+		c.emit("mix", tup("(-2)", allowed))
+		c.dist["hung-scenarios"] += hungScenarios
 	}
 }
